@@ -16,6 +16,8 @@ Fixed atoms are also given by negative indices and by mask, constraints are also
 the FixRot contract includes nearly linear geometries (tolerances scaled by the inertia tensor's condition number).
 Each FixRot object is used again up to three times: after the masses changed at the same geometry, after the atoms
 moved, on a copy of the atoms, and shared with a second Atoms object.
+Constant-pressure / constant-stress simulations are included: a trial that leaves the box changed carries the
+constrained atoms along or leaves them in place; every other trial (rejected cell moves too) leaves them where they were.
 """
 from __future__ import annotations
 
@@ -38,7 +40,7 @@ ASSUMPTIONS = [
     "FixRot geometries have inertia-tensor condition number <= 1e6 (nearly linear ones included) (non-degenerate, as the statement requires)",
     "FixAtoms and FixCom are never combined on one Atoms object: ASE applies constraints one after the other, so FixCom's rigid shift moves the atoms FixAtoms has just restored (an ASE semantics, observed, not a quansino defect)",
 ]
-REQUIRED = {"simulations_constrained_after_free_steps": 10, "forcebias_sims_with_custom_displacement_masses": 10, "trials_fixatoms": 800, "trials_fixcom": 500, "forcebias_steps": 300, "hamiltonian_trials": 150, "fixrot_calls": 2000, "fixrot_constraint_used_again": 1000, "fixrot_constraint_used_again:masses": 100, "fixrot_constraint_used_again:copy-then-masses": 100, "fixrot_constraint_used_again:shared-constraint": 100, "moved_trials": 1000, "exchange_trials_with_fixed_framework": 100}
+REQUIRED = {"simulations_constrained_after_free_steps": 10, "forcebias_sims_with_custom_displacement_masses": 10, "trials_fixatoms": 800, "trials_fixcom": 500, "forcebias_steps": 300, "hamiltonian_trials": 150, "trials_in_constant_pressure_simulations": 1000, "fixrot_calls": 2000, "fixrot_constraint_used_again": 1000, "fixrot_constraint_used_again:masses": 100, "fixrot_constraint_used_again:copy-then-masses": 100, "fixrot_constraint_used_again:shared-constraint": 100, "moved_trials": 1000, "exchange_trials_with_fixed_framework": 100}
 SHARD_TIMEOUT = {"quick": 900, "thorough": 3000}
 
 
@@ -48,6 +50,11 @@ def plan(tier, seed):
     fam = ["canonical", "hamiltonian", "canonical", "grand", "hamiltonian", "canonical"]
     for j in range(12 if not big else 36):
         specs.append({"name": f"{fam[j % 6]}{j}", "mode": "mc", "family": fam[j % 6], "j": j, "seed": seed, "sims": 20 if not big else 40, "steps": 30 if not big else 100})
+    # displacement moves next to cell moves (constant pressure / stress): rejected and failed cell moves, and every
+    # displacement trial, leave the constrained atoms where they were
+    for j in range(4 if not big else 12):
+        f_ = ["isobaric", "isotension"][j % 2]
+        specs.append({"name": f"{f_}{j}", "mode": "mc", "family": f_, "j": 100 + j, "seed": seed, "sims": 20 if not big else 40, "steps": 30 if not big else 100})
     for j in range(3 if not big else 8):
         specs.append({"name": f"forcebias{j}", "mode": "fb", "j": j, "seed": seed, "sims": 12 if not big else 60, "steps": 20 if not big else 100})
     specs.append({"name": "fixrot", "mode": "fixrot", "j": 0, "seed": seed, "n": 4000 if not big else 60000})
@@ -114,16 +121,39 @@ def run_mc(spec, rec):
         atoms = mc.atoms
         fix0 = atoms.positions[fixed_indices(atoms)].copy()
         com0 = atoms.get_center_of_mass() if has_fixcom(atoms) else None
+        ref = {"fix": fix0, "com": com0}
 
         def snap(m):
-            return {"pos": m.atoms.positions.copy(), "n": len(m.atoms)}
+            return {"pos": m.atoms.positions.copy(), "n": len(m.atoms), "cell": np.array(m.atoms.cell.array, copy=True)}
 
         def on_trial(t):
             rec.evaluations += 1
             a = mc.atoms
             idx = fixed_indices(a)
             v = vstr(t.verdict)
+            fix0, com0 = ref["fix"], ref["com"]
+            if not np.array_equal(t.before["cell"], t.after["cell"]):
+                # constant-pressure / constant-stress simulations: a trial that leaves the box changed (an accepted cell
+                # move) carries the constrained atoms along with the box or leaves them where they are - either their
+                # fractional or their Cartesian coordinates are what they were; the reference moves on from there.  Every
+                # other trial (displacement moves, rejected and failed cell moves) is judged as everywhere else.
+                rec.count("trials_that_changed_the_box_under_a_constraint")
+                i0, i1 = np.linalg.inv(t.before["cell"]), np.linalg.inv(t.after["cell"])
+                wit_ = {**wit0, "step": t.step, "trial": t.k, "move": t.name, "verdict": v}
+                if len(fix0):
+                    now = a.positions[idx]
+                    if not (np.array_equal(now, fix0) or np.abs(now @ i1 - fix0 @ i0).max() <= 1e-9):
+                        rec.viol(f"C12/fixed-atom-moved/box-change/{v}", "atoms fixed by FixAtoms have neither their Cartesian nor their fractional coordinates after a trial that changed the box", wit_)
+                    ref["fix"] = now.copy()
+                if com0 is not None:
+                    c1 = a.get_center_of_mass()
+                    if not (np.abs(c1 - com0).max() <= 1e-9 * max(1.0, float(np.abs(a.positions).max(initial=1.0))) or np.abs(c1 @ i1 - com0 @ i0).max() <= 1e-9):
+                        rec.viol(f"C12/centre-of-mass-drift/box-change/{v}", "the centre of mass kept neither its Cartesian nor its fractional coordinates after a trial that changed the box", wit_)
+                    ref["com"] = c1
+                return
             moved = t.before["n"] != t.after["n"] or bool(np.abs(t.before["pos"] - t.after["pos"]).max(initial=0.0) > 0) or t.verdict is False
+            if spec["family"] in ("isobaric", "isotension"):
+                rec.count("trials_in_constant_pressure_simulations")
             if moved:
                 rec.count("moved_trials")
                 rec.case(s["driver"], shape, cons, v)
